@@ -29,6 +29,10 @@ pub struct RefGame {
 	pub events: usize,
 	pub unknown_events: usize,
 	pub state_keys: Vec<u64>,
+	/// after each walked event: number of rows that are complete (closed) in the model's sense
+	pub rows_done: Vec<usize>,
+	/// after each walked event: raw bytes consumed so far (payload table + Game Start included)
+	pub bytes_after: Vec<usize>,
 	/// bytes consumed through the top-level closing brace
 	pub consumed: usize,
 	/// file offsets of the start of each event after Game Start, and the end of raw
@@ -317,6 +321,9 @@ pub fn refparse(b: &[u8]) -> Result<RefGame, String> {
 			h = fnv_mix(h, g.n_ends.min(2) as u64);
 			h = fnv_mix(h, g.rows.len().min(2) as u64);
 			g.state_keys.push(h);
+			let done = if open && !ended { g.rows.len() - 1 } else { g.rows.len() };
+			g.rows_done.push(done);
+			g.bytes_after.push(pos - raw_start);
 		}
 		if ended {
 			break;
@@ -760,6 +767,150 @@ pub fn compare_frames<F: FrameLike>(f: &F, g: &RefGame, rows_done: usize, comple
 				}
 			}
 		}
+	}
+	Ok(())
+}
+
+
+// ------------------------------------------------------------------------------------
+// the transposed (row) view against the columns
+// ------------------------------------------------------------------------------------
+
+use peppi::frame::transpose as tr;
+
+fn tr_leaf(kind: Kind, li: usize, t: &tr::Frame, pi: usize, fo: bool, item: usize) -> Option<(Ty, Bits)> {
+	fn data(t: &tr::Frame, pi: usize, fo: bool) -> Option<&tr::Data> {
+		let p = t.ports.get(pi)?;
+		if fo {
+			p.follower.as_ref()
+		} else {
+			Some(&p.leader)
+		}
+	}
+	match kind {
+		Kind::Pre => data(t, pi, fo).and_then(|d| (view::PRE[li].tr)(&d.pre)),
+		Kind::Post => data(t, pi, fo).and_then(|d| (view::POST[li].tr)(&d.post)),
+		Kind::Start => t.start.as_ref().and_then(|s| (view::START[li].tr)(s)),
+		Kind::End => t.end.as_ref().and_then(|s| (view::END[li].tr)(s)),
+		Kind::Item => t.items.as_ref().and_then(|v| v.get(item)).and_then(|s| (view::ITEM[li].tr)(s)),
+	}
+}
+
+/// The row view `t` of row `i` must contain exactly the values stored at index `i` of the columns.
+pub fn compare_transposed<F: FrameLike>(f: &F, i: usize, t: &tr::Frame) -> Result<(), Mismatch> {
+	if t.id != f.id(i) {
+		return Err(mm("tr-id", format!("row view {}: id {} but the id column holds {}", i, t.id, f.id(i))));
+	}
+	if t.ports.len() != f.n_ports() {
+		return Err(mm("tr-ports", format!("row view {}: {} ports, columns have {}", i, t.ports.len(), f.n_ports())));
+	}
+	for pi in 0..f.n_ports() {
+		if t.ports[pi].port as u8 != f.port_num(pi) {
+			return Err(mm("tr-ports", format!("row view {}: port slot {} is {:?}", i, pi, t.ports[pi].port)));
+		}
+		if t.ports[pi].follower.is_some() != f.has_follower(pi) {
+			return Err(mm("tr-ports", format!("row view {}: follower presence differs for slot {}", i, pi)));
+		}
+		for fo in [false, true] {
+			if fo && !f.has_follower(pi) {
+				continue;
+			}
+			for (kind, cnt) in [(Kind::Pre, view::PRE.len()), (Kind::Post, view::POST.len())] {
+				for li in 0..cnt {
+					let col = f.leaf(kind, pi, fo, li).map(|c| (c.ty(), c.bits(i)));
+					let got = tr_leaf(kind, li, t, pi, fo, 0);
+					if col != got {
+						return Err(mm(
+							"tr-value",
+							format!("row view {}: ports[{}].{}.{}.{} = {:x?} but the column holds {:x?}", i, pi, if fo { "follower" } else { "leader" }, kind.name(), leaf_path(kind, li), got, col),
+						));
+					}
+				}
+			}
+		}
+	}
+	for (kind, cnt) in [(Kind::Start, view::START.len()), (Kind::End, view::END.len())] {
+		let present = match kind {
+			Kind::Start => t.start.is_some(),
+			_ => t.end.is_some(),
+		};
+		if present != f.has(kind) {
+			return Err(mm("tr-gate", format!("row view {}: {} present={} but columns present={}", i, kind.name(), present, f.has(kind))));
+		}
+		for li in 0..cnt {
+			let col = f.leaf(kind, 0, false, li).map(|c| (c.ty(), c.bits(i)));
+			let got = tr_leaf(kind, li, t, 0, false, 0);
+			if col != got {
+				return Err(mm("tr-value", format!("row view {}: {}.{} = {:x?} but the column holds {:x?}", i, kind.name(), leaf_path(kind, li), got, col)));
+			}
+		}
+	}
+	if t.items.is_some() != f.has(Kind::Item) {
+		return Err(mm("tr-gate", format!("row view {}: items present={} but item columns present={}", i, t.items.is_some(), f.has(Kind::Item))));
+	}
+	if let Some(items) = &t.items {
+		let offs = f.item_offsets().unwrap();
+		let (a, b) = (offs[i] as usize, offs[i + 1] as usize);
+		if items.len() != b - a {
+			return Err(mm("tr-items", format!("row view {}: {} items but the offsets delimit {}..{}", i, items.len(), a, b)));
+		}
+		for k in 0..items.len() {
+			for li in 0..view::ITEM.len() {
+				let col = f.leaf(Kind::Item, 0, false, li).map(|c| (c.ty(), c.bits(a + k)));
+				let got = tr_leaf(Kind::Item, li, t, 0, false, k);
+				if col != got {
+					return Err(mm("tr-items", format!("row view {}: item {} .{} = {:x?} but the column holds {:x?} at flat index {}", i, k, leaf_path(Kind::Item, li), got, col, a + k)));
+				}
+			}
+		}
+	}
+	Ok(())
+}
+
+/// bitwise equality of two row views
+pub fn transposed_equal(a: &tr::Frame, b: &tr::Frame) -> Result<(), String> {
+	if a.id != b.id || a.ports.len() != b.ports.len() {
+		return Err(format!("id/ports differ: {} / {} ports vs {} / {} ports", a.id, a.ports.len(), b.id, b.ports.len()));
+	}
+	for pi in 0..a.ports.len() {
+		if a.ports[pi].port != b.ports[pi].port || a.ports[pi].follower.is_some() != b.ports[pi].follower.is_some() {
+			return Err(format!("port slot {} differs", pi));
+		}
+		for fo in [false, true] {
+			for (kind, cnt) in [(Kind::Pre, view::PRE.len()), (Kind::Post, view::POST.len())] {
+				for li in 0..cnt {
+					if tr_leaf(kind, li, a, pi, fo, 0) != tr_leaf(kind, li, b, pi, fo, 0) {
+						return Err(format!("ports[{}] fo={} {}.{} differs", pi, fo, kind.name(), leaf_path(kind, li)));
+					}
+				}
+			}
+		}
+	}
+	for (kind, cnt) in [(Kind::Start, view::START.len()), (Kind::End, view::END.len())] {
+		for li in 0..cnt {
+			if tr_leaf(kind, li, a, 0, false, 0) != tr_leaf(kind, li, b, 0, false, 0) {
+				return Err(format!("{}.{} differs", kind.name(), leaf_path(kind, li)));
+			}
+		}
+	}
+	if a.start.is_some() != b.start.is_some() || a.end.is_some() != b.end.is_some() {
+		return Err("start/end presence differs".into());
+	}
+	match (&a.items, &b.items) {
+		(None, None) => {}
+		(Some(x), Some(y)) => {
+			if x.len() != y.len() {
+				return Err(format!("item counts differ: {} vs {}", x.len(), y.len()));
+			}
+			for k in 0..x.len() {
+				for li in 0..view::ITEM.len() {
+					if tr_leaf(Kind::Item, li, a, 0, false, k) != tr_leaf(Kind::Item, li, b, 0, false, k) {
+						return Err(format!("item {} .{} differs", k, leaf_path(Kind::Item, li)));
+					}
+				}
+			}
+		}
+		_ => return Err("items presence differs".into()),
 	}
 	Ok(())
 }
